@@ -1087,3 +1087,374 @@ Proof.
   exists s. split; [now exists [PGetItem "y^"; PGetItem "y*"; PGetItem "<p>y^"], o|].
   vm_compute in E. injection E as _ <-. split; reflexivity.
 Qed.
+
+(* ------------------------------------------------------------------ FortranNameManager: basic facts *)
+
+Definition f0 : f_state := mkF [] f_global_start [] (mkGen "" (rev (map snd f_global_start)) []).
+
+Lemma f_init_ok cf : f_init cf = Ok f0.
+Proof. destruct cf; reflexivity. Qed.
+
+(* the three keyed entry points; [p] is name_local's optional explicit prefix *)
+Definition f_op_of (sp : space) (k : string) (p : option string) : f_op :=
+  match sp with Local => FLocal k p | Global => FGlobal k | Function => FFunction k end.
+Definition f_pfx (sp : space) (k : string) (p : option string) : option string :=
+  match sp with Local => f_local_prefix_for k p | _ => None end.
+
+Lemma f_prim_spec cf s sp k p o s' :
+  f_step cf s (f_op_of sp k p) = Ok (o, s') ->
+  (f_lookup s sp k = Some o /\ s' = s) \/
+  (f_lookup s sp k = None /\
+   (forall sp' k', f_lookup s' sp' k' =
+                   if space_eqb sp' sp && String.eqb k' k then Some o else f_lookup s sp' k') /\
+   gen_call cf (f_gen s) (make_identifier (seed_of k (f_pfx sp k p))) = Ok (o, f_gen s')).
+Proof.
+  destruct sp; cbn [f_op_of f_step f_pfx]; unfold f_name_local, f_name_global, f_name_function.
+  - destruct (get_or_make cf (f_local s) (f_gen s) k (f_local_prefix_for k p)) as [[[v d] g]| |] eqn:E;
+      try discriminate.
+    intros H; injection H as <- <-. apply gom_spec in E as [[A [-> ->]]|[A [-> G]]].
+    + left. split; [exact A | now destruct s].
+    + right. cbn. repeat split; auto. intros sp' k'. destruct sp'; cbn; auto.
+  - destruct (get_or_make cf (f_global s) (f_gen s) k None) as [[[v d] g]| |] eqn:E; try discriminate.
+    intros H; injection H as <- <-. apply gom_spec in E as [[A [-> ->]]|[A [-> G]]].
+    + left. split; [exact A | now destruct s].
+    + right. cbn. repeat split; auto. intros sp' k'. destruct sp'; cbn; auto.
+  - destruct (get_or_make cf (f_func s) (f_gen s) k None) as [[[v d] g]| |] eqn:E; try discriminate.
+    intros H; injection H as <- <-. apply gom_spec in E as [[A [-> ->]]|[A [-> G]]].
+    + left. split; [exact A | now destruct s].
+    + right. cbn. repeat split; auto. intros sp' k'. destruct sp'; cbn; auto.
+Qed.
+
+Lemma f_prim_hit cf s sp k p v : f_lookup s sp k = Some v -> f_step cf s (f_op_of sp k p) = Ok (v, s).
+Proof.
+  destruct sp; cbn [f_op_of f_step f_lookup]; unfold f_name_local, f_name_global, f_name_function;
+    intros H; rewrite (gom_hit _ _ _ _ _ _ H); now destruct s.
+Qed.
+
+Lemma f_prim_total cf s sp k p : exists v s', f_step cf s (f_op_of sp k p) = Ok (v, s').
+Proof.
+  destruct sp; cbn [f_op_of f_step]; unfold f_name_local, f_name_global, f_name_function.
+  - destruct (gom_total cf (f_local s) (f_gen s) k (f_local_prefix_for k p)) as [v [d [g ->]]]. eauto.
+  - destruct (gom_total cf (f_global s) (f_gen s) k None) as [v [d [g ->]]]. eauto.
+  - destruct (gom_total cf (f_func s) (f_gen s) k None) as [v [d [g ->]]]. eauto.
+Qed.
+
+Lemma f_unique_spec cf s p o s' :
+  f_step cf s (FUnique p) = Ok (o, s') ->
+  (forall sp k, f_lookup s' sp k = f_lookup s sp k) /\
+  gen_call cf (f_gen s) (make_identifier (f_unique_prefix ++ p)) = Ok (o, f_gen s').
+Proof.
+  cbn [f_step]. unfold f_unique, gen_call_key.
+  destruct (gen_call cf (f_gen s) (make_identifier (f_unique_prefix ++ p))) as [[v g]| |]; try discriminate.
+  intros H; injection H as <- <-. split; [|reflexivity]. intros []; reflexivity.
+Qed.
+
+Lemma with_prefix_ok q r v s : with_prefix q r = Ok (v, s) <-> exists w, r = Ok (w, s) /\ v = q ++ w.
+Proof.
+  destruct r as [[w s1]| |]; cbn; split.
+  - intros H; injection H as <- <-. eauto.
+  - intros [w' [E ->]]. now injection E as -> ->.
+  - discriminate.
+  - intros [w [E _]]; discriminate.
+  - discriminate.
+  - intros [w [E _]]; discriminate.
+Qed.
+
+(* well-formed use: no explicit prefix for locals, name_global only for persistent names
+   (this is how the Fortran generator calls the manager) *)
+Definition f_op_wf (op : f_op) : Prop :=
+  match op with
+  | FLocal _ (Some _) => False
+  | FGlobal k => is_state_variable k = true
+  | _ => True
+  end.
+Definition f_prim_wf (sp : space) (k : string) (p : option string) : Prop :=
+  match sp with Local => p = None | Global => is_state_variable k = true | Function => True end.
+
+(* every operation is make_unique_fortran_name or a keyed lookup whose answer gets a fixed qualifier *)
+Lemma f_op_view cf op :
+  (exists p, op = FUnique p) \/
+  exists sp k p q, (forall s, f_step cf s op = with_prefix q (f_step cf s (f_op_of sp k p))) /\
+                   (f_op_wf op -> f_prim_wf sp k p).
+Proof.
+  assert (N : forall r : res (string * f_state), r = with_prefix "" r).
+  { intros [[v s]| |]; reflexivity. }
+  destruct op as [k|k p|k|p|k|k q].
+  - right. exists Global, k, None, "". split; [intros s; apply N | auto].
+  - right. exists Local, k, p, "". split; [intros s; apply N|]. destruct p; cbn; tauto.
+  - right. exists Function, k, None, "". split; [intros s; apply N | auto].
+  - left. eauto.
+  - right. destruct (is_state_variable k) eqn:E.
+    + exists Global, k, None, f_state_qualifier. split; [|auto]. intros s. cbn. now rewrite E.
+    + exists Local, k, None, "". split; [|reflexivity]. intros s. cbn. rewrite E. apply N.
+  - right. destruct (is_state_variable k) eqn:E.
+    + exists Global, k, None, (if q then f_state_qualifier ++ f_refcnt_prefix else f_refcnt_prefix).
+      split; [|auto]. intros s. cbn. now rewrite E.
+    + exists Local, (f_refcnt_prefix ++ k), None, "". split; [|reflexivity]. intros s. cbn. rewrite E. apply N.
+Qed.
+
+(* ------------------------------------------------------------------ C13: termination (Fortran) *)
+
+Theorem f_step_total cf s op : exists o s', f_step cf s op = Ok (o, s').
+Proof.
+  destruct (f_op_view cf op) as [[p ->]|[sp [k [p [q [E _]]]]]].
+  - cbn [f_step]. unfold f_unique, gen_call_key.
+    destruct (gen_call_total cf (f_gen s) (make_identifier (f_unique_prefix ++ p))) as [v [g ->]]. eauto.
+  - rewrite E. destruct (f_prim_total cf s sp k p) as [v [s' ->]]. cbn. eauto.
+Qed.
+
+Theorem f_run_total cf ops : forall s, exists outs s', f_run cf s ops = Ok (outs, s').
+Proof.
+  induction ops as [|op ops IH]; intros s; cbn; [eauto|].
+  destruct (f_step_total cf s op) as [o [s1 ->]]. destruct (IH s1) as [os [s2 ->]]. eauto.
+Qed.
+
+(* ------------------------------------------------------------------ C13: stability (Fortran) *)
+
+Lemma f_prim_returns cf s sp k p v s' : f_step cf s (f_op_of sp k p) = Ok (v, s') -> f_lookup s' sp k = Some v.
+Proof.
+  intros H. apply f_prim_spec in H as [[A ->]|[_ [L _]]]; [exact A|].
+  rewrite L, space_eqb_refl, String.eqb_refl. reflexivity.
+Qed.
+
+Lemma f_prim_keeps cf s sp0 k0 p0 o s' sp k v :
+  f_step cf s (f_op_of sp0 k0 p0) = Ok (o, s') -> f_lookup s sp k = Some v -> f_lookup s' sp k = Some v.
+Proof.
+  intros H A. apply f_prim_spec in H as [[_ ->]|[N [L _]]]; [exact A|].
+  rewrite L. destruct (space_eqb sp sp0 && String.eqb k k0) eqn:E; [|exact A].
+  apply andb_true_iff in E as [E1 E2]. apply space_eqb_eq in E1. apply String.eqb_eq in E2. subst. congruence.
+Qed.
+
+Lemma f_step_keeps cf s op o s' sp k v :
+  f_step cf s op = Ok (o, s') -> f_lookup s sp k = Some v -> f_lookup s' sp k = Some v.
+Proof.
+  intros H A. destruct (f_op_view cf op) as [[p ->]|[sp0 [k0 [p0 [q [E _]]]]]].
+  - apply f_unique_spec in H as [L _]. now rewrite L.
+  - rewrite E in H. apply with_prefix_ok in H as [w [H _]]. eapply f_prim_keeps; eauto.
+Qed.
+
+Lemma f_run_keeps cf ops : forall s outs s' sp k v,
+  f_run cf s ops = Ok (outs, s') -> f_lookup s sp k = Some v -> f_lookup s' sp k = Some v.
+Proof.
+  induction ops as [|op ops IH]; intros s outs s' sp k v H A; cbn in H.
+  - now injection H as <- <-.
+  - destruct (f_step cf s op) as [[o s1]| |] eqn:E; try discriminate.
+    destruct (f_run cf s1 ops) as [[os s2]| |] eqn:R; try discriminate. injection H as <- <-.
+    eapply IH; eauto. eapply f_step_keeps; eauto.
+Qed.
+
+(* any keyed operation repeated after any interleaving of other operations gives the first answer
+   and leaves the state alone *)
+Theorem f_stable cf s op o s1 ops outs s2 :
+  (forall p, op <> FUnique p) ->
+  f_step cf s op = Ok (o, s1) -> f_run cf s1 ops = Ok (outs, s2) ->
+  f_step cf s2 op = Ok (o, s2).
+Proof.
+  intros NU H R. destruct (f_op_view cf op) as [[p ->]|[sp [k [p [q [E _]]]]]]; [now destruct (NU p)|].
+  rewrite E in H |- *. apply with_prefix_ok in H as [w [H ->]].
+  apply f_prim_returns in H. eapply f_run_keeps in H; [|exact R].
+  rewrite (f_prim_hit cf _ _ _ p _ H). reflexivity.
+Qed.
+
+(* ------------------------------------------------------------------ C13: injectivity (Fortran) *)
+
+Record FInv (cf : bool) (s : f_state) : Prop := {
+  fi_fp : g_fp (f_gen s) = "";
+  fi_cover : forall sp k v, f_lookup s sp k = Some v -> In v (g_existing (f_gen s));
+  fi_word : forall v, In v (g_existing (f_gen s)) -> sall is_word v = true;
+  fi_inj : forall sp1 k1 v1 sp2 k2 v2,
+      f_lookup s sp1 k1 = Some v1 -> f_lookup s sp2 k2 = Some v2 -> (sp1 <> sp2 \/ k1 <> k2) ->
+      nrm cf v1 <> nrm cf v2
+}.
+
+Lemma assoc_nodup_inj_f (f : string -> string) (l : dict) k1 k2 v1 v2 :
+  NoDup (map f (map snd l)) -> assoc k1 l = Some v1 -> assoc k2 l = Some v2 -> k1 <> k2 -> f v1 <> f v2.
+Proof.
+  induction l as [|[k v] l IH]; cbn; [discriminate|]. intros ND H1 H2 Hk. inversion ND as [|? ? Hn ND']; subst.
+  destruct (String.eqb k1 k) eqn:E1, (String.eqb k2 k) eqn:E2.
+  - apply String.eqb_eq in E1, E2. congruence.
+  - injection H1 as ->. intros E. apply Hn. rewrite E. apply in_map, in_map_iff. exists (k2, v2).
+    split; [reflexivity | now apply assoc_in].
+  - injection H2 as ->. intros E. apply Hn. rewrite <- E. apply in_map, in_map_iff. exists (k1, v1).
+    split; [reflexivity | now apply assoc_in].
+  - eauto.
+Qed.
+
+Lemma f_start_facts :
+  nodupb (map lower (map snd f_global_start)) = true /\ nodupb (map snd f_global_start) = true /\
+  forallb (sall is_word) (map snd f_global_start) = true.
+Proof. repeat split; reflexivity. Qed.
+
+Lemma FInv_f0 cf : FInv cf f0.
+Proof.
+  destruct f_start_facts as [N1 [N2 W]]. constructor.
+  - reflexivity.
+  - intros sp k v H. destruct sp; [cbn in H; discriminate | | cbn in H; discriminate].
+    change (assoc k f_global_start = Some v) in H. change (In v (rev (map snd f_global_start))).
+    apply -> in_rev. apply assoc_in in H. apply in_map_iff. now exists (k, v).
+  - intros v H. change (In v (rev (map snd f_global_start))) in H. apply in_rev in H.
+    rewrite forallb_forall in W. auto.
+  - intros sp1 k1 v1 sp2 k2 v2 H1 H2 D.
+    destruct sp1; [cbn in H1; discriminate | | cbn in H1; discriminate].
+    destruct sp2; [cbn in H2; discriminate | | cbn in H2; discriminate].
+    destruct D as [D|D]; [congruence|].
+    apply (assoc_nodup_inj_f (nrm cf) f_global_start k1 k2 v1 v2); auto.
+    destruct cf.
+    + apply nodupb_NoDup. exact N1.
+    + replace (map (nrm false) (map snd f_global_start)) with (map snd f_global_start)
+        by (symmetry; exact (map_id _)).
+      apply nodupb_NoDup. exact N2.
+Qed.
+
+Lemma gen_call_word cf g b v g' :
+  g_fp g = "" -> sall is_word b = true -> gen_call cf g b = Ok (v, g') -> sall is_word v = true.
+Proof.
+  intros F W H. apply gen_call_spec in H as [S _]. rewrite F in S. eapply out_shape_word; [|exact S]. exact W.
+Qed.
+
+(* the effect of one generator call on the invariant, with or without a new binding *)
+Lemma FInv_gen cf s s' o b (newk : option (space * string)) :
+  FInv cf s ->
+  gen_call cf (f_gen s) (make_identifier b) = Ok (o, f_gen s') ->
+  (forall sp' k', f_lookup s' sp' k' =
+     match newk with
+     | Some (sp, k) => if space_eqb sp' sp && String.eqb k' k then Some o else f_lookup s sp' k'
+     | None => f_lookup s sp' k'
+     end) ->
+  FInv cf s'.
+Proof.
+  intros [F C W J] G L. pose proof (gen_call_word _ _ _ _ _ F (make_identifier_word b) G) as Wo.
+  apply gen_call_spec in G as [_ [NC [EX FP]]]. apply conflicting_false in NC.
+  assert (Lk : forall sp' k' v', f_lookup s' sp' k' = Some v' ->
+             (newk = Some (sp', k') /\ v' = o) \/
+             ((forall sp k, newk = Some (sp, k) -> sp' <> sp \/ k' <> k) /\ f_lookup s sp' k' = Some v')).
+  { intros sp' k' v' Hl. rewrite L in Hl. destruct newk as [[sp k]|].
+    - destruct (space_eqb sp' sp) eqn:E1; cbn in Hl.
+      + apply space_eqb_eq in E1. destruct (String.eqb k' k) eqn:E2.
+        * apply String.eqb_eq in E2. injection Hl as <-. subst. auto.
+        * apply String.eqb_neq in E2. right. split; [|exact Hl]. intros ? ? X; injection X as <- <-. auto.
+      + right. split; [|exact Hl]. intros ? ? X; injection X as <- <-. left. intros ->.
+        now rewrite space_eqb_refl in E1.
+    - right. split; [discriminate | exact Hl]. }
+  constructor.
+  - now rewrite FP.
+  - intros sp' k' v' Hl. rewrite EX. apply Lk in Hl as [[_ ->]|[_ Hl]]; [now left | right; eauto].
+  - intros v. rewrite EX. intros [<-|Hv]; auto.
+  - intros sp1 k1 v1 sp2 k2 v2 H1 H2 D.
+    apply Lk in H1 as [[N1 ->]|[D1 H1]], H2 as [[N2 ->]|[D2 H2]].
+    + rewrite N1 in N2. injection N2 as <- <-. destruct D; congruence.
+    + intros E. apply NC. rewrite E. apply in_map. eauto.
+    + intros E. apply NC. rewrite <- E. apply in_map. eauto.
+    + eapply J; eauto.
+Qed.
+
+Lemma FInv_step cf s op o s' : FInv cf s -> f_step cf s op = Ok (o, s') -> FInv cf s'.
+Proof.
+  intros I H. destruct (f_op_view cf op) as [[p ->]|[sp [k [p [q [E _]]]]]].
+  - apply f_unique_spec in H as [L G]. eapply (FInv_gen cf s s' o _ None); eauto.
+  - rewrite E in H. apply with_prefix_ok in H as [w [H _]].
+    apply f_prim_spec in H as [[_ ->]|[_ [L G]]]; [exact I|].
+    eapply (FInv_gen cf s s' w _ (Some (sp, k))); eauto.
+Qed.
+
+Lemma FInv_run cf ops : forall s outs s', FInv cf s -> f_run cf s ops = Ok (outs, s') -> FInv cf s'.
+Proof.
+  induction ops as [|op ops IH]; intros s outs s' I H; cbn in H.
+  - now injection H as <- <-.
+  - destruct (f_step cf s op) as [[o s1]| |] eqn:E; try discriminate.
+    destruct (f_run cf s1 ops) as [[os s2]| |] eqn:R; try discriminate. injection H as <- <-.
+    eapply IH; [|exact R]. eapply FInv_step; eauto.
+Qed.
+
+Definition f_reach (cf : bool) (s : f_state) : Prop := exists ops outs, f_run cf f0 ops = Ok (outs, s).
+
+Lemma f_reach_inv cf s : f_reach cf s -> FInv cf s.
+Proof. intros [ops [outs R]]. eapply FInv_run; [apply FInv_f0 | exact R]. Qed.
+
+(* distinct (name space, key) pairs never share an identifier under the generator's comparison ... *)
+Theorem f_injective_nrm cf s sp1 k1 v1 sp2 k2 v2 :
+  FInv cf s -> f_lookup s sp1 k1 = Some v1 -> f_lookup s sp2 k2 = Some v2 ->
+  (sp1 <> sp2 \/ k1 <> k2) -> nrm cf v1 <> nrm cf v2.
+Proof. intros I. apply (fi_inj _ _ I). Qed.
+
+(* ... hence never as strings (whatever the switch) ... *)
+Theorem f_injective_case_sensitive cf s sp1 k1 v1 sp2 k2 v2 :
+  FInv cf s -> f_lookup s sp1 k1 = Some v1 -> f_lookup s sp2 k2 = Some v2 ->
+  (sp1 <> sp2 \/ k1 <> k2) -> v1 <> v2.
+Proof. intros I H1 H2 D E. apply (fi_inj _ _ I _ _ _ _ _ _ H1 H2 D). now rewrite E. Qed.
+
+(* ... and, with the case-folding generator, not even when letter case is ignored (Fortran's comparison) *)
+Theorem f_injective_lower s sp1 k1 v1 sp2 k2 v2 :
+  FInv true s -> f_lookup s sp1 k1 = Some v1 -> f_lookup s sp2 k2 = Some v2 ->
+  (sp1 <> sp2 \/ k1 <> k2) -> lower v1 <> lower v2.
+Proof. intros I. apply (fi_inj _ _ I). Qed.
+
+(* the unchanged tree (plain generator): two names that differ only in case collide in Fortran *)
+Lemma f_injective_lower_refuted_plain :
+  exists k1 k2 v1 v2, k1 <> k2 /\ f_outputs false [FGetItem k1; FGetItem k2] = Some [v1; v2] /\ lower v1 = lower v2.
+Proof. exists "<state>y", "<state>Y", "dagrt_state%state_y", "dagrt_state%state_Y". repeat split. discriminate. Qed.
+
+(* names made by make_unique_fortran_name differ from every bound name and from every earlier name *)
+Theorem f_unique_fresh cf s p o s' :
+  FInv cf s -> f_step cf s (FUnique p) = Ok (o, s') ->
+  ~ In (nrm cf o) (map (nrm cf) (g_existing (f_gen s))) /\
+  (forall sp k v, f_lookup s sp k = Some v -> nrm cf v <> nrm cf o) /\
+  g_existing (f_gen s') = o :: g_existing (f_gen s).
+Proof.
+  intros I H. apply f_unique_spec in H as [_ G]. apply gen_call_spec in G as [_ [NC [EX _]]].
+  apply conflicting_false in NC. repeat split; auto.
+  intros sp k v Hl E. apply NC. rewrite <- E. apply in_map. eapply fi_cover; eauto.
+Qed.
+
+Lemma f_step_existing_grows cf s op o s' :
+  f_step cf s op = Ok (o, s') -> incl (g_existing (f_gen s)) (g_existing (f_gen s')).
+Proof.
+  intros H. destruct (f_op_view cf op) as [[p ->]|[sp [k [p [q [E _]]]]]].
+  - apply f_unique_spec in H as [_ G]. apply gen_call_spec in G as [_ [_ [EX _]]]. rewrite EX. now right.
+  - rewrite E in H. apply with_prefix_ok in H as [w [H _]].
+    apply f_prim_spec in H as [[_ ->]|[_ [_ G]]]; [apply incl_refl|].
+    apply gen_call_spec in G as [_ [_ [EX _]]]. rewrite EX. now right.
+Qed.
+
+Lemma f_run_existing_grows cf ops : forall s outs s',
+  f_run cf s ops = Ok (outs, s') -> incl (g_existing (f_gen s)) (g_existing (f_gen s')).
+Proof.
+  induction ops as [|op ops IH]; intros s outs s' H; cbn in H.
+  - injection H as <- <-. apply incl_refl.
+  - destruct (f_step cf s op) as [[o s1]| |] eqn:E; try discriminate.
+    destruct (f_run cf s1 ops) as [[os s2]| |] eqn:R; try discriminate. injection H as <- <-.
+    eapply incl_tran; [eapply f_step_existing_grows; eauto | eapply IH; eauto].
+Qed.
+
+Theorem f_unique_distinct cf s p1 o1 s1 ops outs s2 p2 o2 s3 :
+  f_step cf s (FUnique p1) = Ok (o1, s1) -> f_run cf s1 ops = Ok (outs, s2) ->
+  f_step cf s2 (FUnique p2) = Ok (o2, s3) -> nrm cf o1 <> nrm cf o2.
+Proof.
+  intros H1 R H2. apply f_unique_spec in H1 as [_ G1], H2 as [_ G2].
+  apply gen_call_spec in G1 as [_ [_ [EX1 _]]], G2 as [_ [NC _]]. apply conflicting_false in NC.
+  intros E. apply NC. rewrite <- E. apply in_map. eapply f_run_existing_grows; eauto. rewrite EX1. now left.
+Qed.
+
+(* ------------------------------------------------------------------ C13: storage class (Fortran) *)
+
+Lemma f_qualifier_nonword : sall is_word f_state_qualifier = false.
+Proof. reflexivity. Qed.
+
+Lemma word_not_qualified v : sall is_word v = true -> prefix f_state_qualifier v = false.
+Proof.
+  intros W. destruct (prefix f_state_qualifier v) eqn:E; [|reflexivity].
+  apply prefix_split in E as [r ->]. rewrite sall_app, f_qualifier_nonword in W. discriminate.
+Qed.
+
+(* persistent names are components of the state structure, everything else is a local variable *)
+Theorem f_storage cf s k v s' :
+  FInv cf s -> f_step cf s (FGetItem k) = Ok (v, s') ->
+  (is_state_variable k = true -> prefix f_state_qualifier v = true) /\
+  (is_state_variable k = false -> sall is_word v = true /\ prefix f_state_qualifier v = false).
+Proof.
+  intros I H. pose proof (FInv_step _ _ _ _ _ I H) as I'. cbn in H. split; intros E; rewrite E in H.
+  - apply with_prefix_ok in H as [w [_ ->]]. apply prefix_app.
+  - assert (W : sall is_word v = true).
+    { apply (f_prim_returns cf s Local k None) in H. eapply fi_word; eauto. eapply fi_cover; eauto. }
+    split; [exact W | now apply word_not_qualified].
+Qed.
